@@ -564,7 +564,14 @@ def judge_output(case):
     printed, expected, exact = case['printed'], case['expected'], case['exact']
     viol = []
     sb = fresh()
+    kept = case.get('kept')
+    if kept == 'first':
+        sb.clear_context()       # the execution asserted on is the first of the history (the instructor started over)
     execution = sb.call('printer', printed) if not case.get('error') else sb.call('boom')
+    if kept:
+        # the result is kept and asserted on later: other executions came in between, one of them printing just the expected text
+        sb.call('printer', 'an entirely different line')
+        sb.call('printer', expected)
     err = bool(case.get('error'))
     chomped = printed[:-1] if printed.endswith('\n') else printed
     if exact:
@@ -597,7 +604,7 @@ def judge_output(case):
             viol.append(V('C07|%s|fails-but-relation-holds|output' % neg, desc))
         if p[0] == n[0] and p[0] in ('silent', 'failing'):
             viol.append(V('C07|%s|negation-both-%s|output' % (pos, 'pass' if p[0] == 'silent' else 'fail'), desc))
-    return Result(dedupe(viol), True, ['family=output'])
+    return Result(dedupe(viol), True, ['family=output'] + (['output-of-kept-result=' + kept] if kept else []))
 
 
 UNIT_FUNCS = {
@@ -804,11 +811,15 @@ def table(tier):
              'Die Straße ist lang', 'STRASSE', 'MASSE: 12 kg', 'maße', 'Η ΟΔΟΣ', 'οδοσ']
     for printed, expected, exact in itertools.product(texts, texts, (False, True)):
         yield {'kind': 'output', 'printed': printed, 'expected': expected, 'exact': exact}
+        if exact or printed in texts[:6]:
+            yield {'kind': 'output', 'printed': printed, 'expected': expected, 'exact': exact, 'kept': 'first'}
+            yield {'kind': 'output', 'printed': printed, 'expected': expected, 'exact': exact, 'kept': 'later'}
     words = ['hello world', 'Hello, World!', 'HELLO WORLD', 'hello, world', 'helloworld', 'a b c', 'A, b; c.', 'abc', 'a', 'A', 'a.',
              'b', '', 'x y', 'y x', 'total: 5', 'Total 5!', 'total 6', 'Hello\nWorld', 'world\nhello', 'hello!\n-----\nworld.', 'a\n\nb', 'a\nb']
     for a, b in itertools.product(words, words):
         yield {'kind': 'strnorm', 'a': a, 'b': b}
     yield {'kind': 'output', 'printed': '', 'expected': 'x', 'exact': False, 'error': True}
+    yield {'kind': 'output', 'printed': '', 'expected': 'x', 'exact': False, 'error': True, 'kept': 'first'}
     yield {'kind': 'output', 'printed': '', 'expected': '', 'exact': True, 'error': True}
 
 
